@@ -245,7 +245,7 @@ func c06Extra(t Tier, ev *Evidence) []Violation {
 	t0 := time.Now()
 	budget := 150 * time.Second
 	if t == Thorough {
-		budget = 30 * time.Minute
+		budget = 15 * time.Minute
 	}
 	budget = ScaleBudget(budget)
 	exhaustive := true
